@@ -201,4 +201,42 @@ def crashHistory {κ α β : Type} [DecidableEq κ] (mode : SaveMode) (size : β
     (fs : FS κ β) (hist : List (Interrupted κ α)) : FS κ β :=
   hist.foldl (fun fs h => h.apply mode size fn fs) fs
 
+/-! ### the default file name of a key, and the key check of `parallelise` -/
+
+/-- shape of `_pickle_name` -/
+inductive NameScheme where
+  | plainStr      -- f"{k}.p"                                  (pinned tree)
+  | quotedRepr    -- f"{quote(repr(k), safe='')}.p"           (after the repair)
+deriving DecidableEq, Repr
+
+/-- bytes `urllib.parse.quote(s, safe='')` copies: ASCII letters, digits and `_ . - ~` -/
+def safeByte (b : Nat) : Bool :=
+  (65 ≤ b && b ≤ 90) || (97 ≤ b && b ≤ 122) || (48 ≤ b && b ≤ 57) || b == 95 || b == 46 || b == 45 || b == 126
+
+/-- upper-case hexadecimal digit of `n < 16`, as a byte -/
+def hexDigit (n : Nat) : Nat := if n < 10 then 48 + n else 55 + n
+def unhex (c : Nat) : Nat := if c < 58 then c - 48 else c - 55
+
+/-- percent-encoding of a byte string: safe bytes are copied, every other byte becomes `%XX` -/
+def pctEncode : List Nat → List Nat
+  | [] => []
+  | b :: rest => if safeByte b then b :: pctEncode rest else 37 :: hexDigit (b / 16) :: hexDigit (b % 16) :: pctEncode rest
+
+def pctDecode : List Nat → List Nat
+  | 37 :: h :: l :: rest => (unhex h * 16 + unhex l) :: pctDecode rest
+  | b :: rest => b :: pctDecode rest
+  | [] => []
+
+/-- the file name of key `k` under a scheme; `str` / `repr` are Python's `str(k)` / `repr(k)` as byte strings -/
+def defaultName {κ : Type} (scheme : NameScheme) (str repr : κ → List Nat) (k : κ) : List Nat :=
+  match scheme with
+  | .plainStr => str k ++ [46, 112]
+  | .quotedRepr => pctEncode (repr k) ++ [46, 112]
+
+/-- `parallelise(fn, inputs, cache=cache)` as shipped: with `checks = true` a cache is refused (`none`, the
+`ValueError`) when two inputs share a key -/
+def parallelise {κ α β : Type} [DecidableEq κ] (checks : Bool) (mode : SaveMode) (size : β → Nat) (fn : α → β)
+    (fs : FS κ β) (inputs : List (κ × α)) : Option (RunResult κ β) :=
+  if checks && !decide (inputs.map (·.1)).Nodup then none else some (run mode size fn fs inputs)
+
 end Mxl.C19
